@@ -209,6 +209,7 @@ def _install_core(reg):
                 M.OptPN.is_none(v.ppn[r]), M.OptBN.is_none(v.pbn[r]), M.OptLN.is_none(v.pnfvs[r]),
                 z3.ForAll([j], z3.And(z3.Not(v.edge[r][j]), z3.Implies(z3.Or(par_none, j != p), z3.Not(v.edge[j][r])))),
                 v.succsig[r] == S.nosucc))),
+            ("new_parentless_node", z3.Implies(z3.And(isnew, par_none), z3.And(v.depth[r] == 0, OI.is_none(v.parent[r])))),
             ("old_nodes_unchanged", same_nodes(v, o, NODEF)),
             ("edges", z3.If(par_none,
                             z3.And(z3.ForAll([i], z3.Implies(z3.And(0 <= i, i < o.K), v.succsig[i] == o.succsig[i])),
@@ -226,7 +227,9 @@ def _install_core(reg):
         "biobalm.succession_diagram.SuccessionDiagram._ensure_node",
         params=[("self", SD), ("parent_id", OptInt), ("stable_motif", TSpace)], result_type=TInt,
         properties=("C02", "C04", "C14", "C15", "C20", "C07"),
-        requires=[lambda c: S.inv_all(c.self, exempt=z3.If(OI.is_none(c.parent_id), -1, OI.val(c.parent_id))),
+        requires=[lambda c: S.inv_all(c.self, exempt=z3.If(OI.is_none(c.parent_id), -1, OI.val(c.parent_id)), allow_empty=True),
+                  # the only call on an empty diagram is the creation of the root by __init__
+                  lambda c: z3.Implies(c.self.K == 0, z3.And(OI.is_none(c.parent_id), c.stable_motif == EMPTY)),
                   lambda c: z3.And(T.wf_space(c.stable_motif), T.dom_within(c.stable_motif, N(c.self)), T.IsTrap(N(c.self), c.stable_motif)),
                   lambda c: z3.Implies(z3.Not(OI.is_none(c.parent_id)), z3.And(
                       S.valid(c.self, OI.val(c.parent_id)),
@@ -235,7 +238,7 @@ def _install_core(reg):
         modifies={"self": ["K", "space", "expanded", "skipped", "parent", "cand", "seeds", "sets", "ppn", "pbn", "pnfvs",
                            "edge", "motifs", "motif0", "succsig", "depth", "index"]},
         ensures=[(nm, (lambda k: (lambda c: dict(en_post(c))[k]))(nm)) for nm in
-                 ["result_valid", "at_most_one_new_node", "net_unchanged", "new_node_is_clean_stub", "old_nodes_unchanged", "edges",
+                 ["result_valid", "at_most_one_new_node", "net_unchanged", "new_node_is_clean_stub", "new_parentless_node", "old_nodes_unchanged", "edges",
                   "depth.never_decreases", "extends_unless_parent_expanded"] + ["inv." + nm for nm, _ in S.inv(M.View(_dummy_ho()))]],
         lemmas=[("L2.perc_trap", lem_perc), ("L10.key_injective", lem_keyinj)],
     ), method_of="SD")
@@ -971,3 +974,134 @@ def _install_compare(reg):
         modifies={"self": [], "other": []},
         ensures=[("decides_equality_of_node_and_edge_sets", lambda c: c.result == z3.And(spec(c.self, c.other), spec(c.other, c.self)))],
     ), method_of="SD")
+
+
+# ====================================================================== construction and pickling (C16, C20)
+def _install_state(reg):
+    from pyvc.contract import CustomParam
+    from pyvc.externals_aeon import TAeonText, to_aeon_fn, from_aeon_fn, cleanup_fn, graph_of, AX_AEON
+    OptCfg = TOpt(M.TConfig)
+    CFG = ["cfg_" + k for k in M.CONFIG_KEYS]
+    OptLN = M.OptLN
+
+    # ---- trusted dependencies
+    reg.add(Contract(
+        "biobalm.interaction_graph_utils.cleanup_network", params=[("network", TNetObj)], result_type=TNetObj, trusted=True,
+        properties=("C16", "C20"),
+        ensures=[("is_cleanup", lambda c: c.result == cleanup_fn(c.network)),
+                 ("same_dynamics", lambda c: bn_net_of(c.result) == bn_net_of(c.network))],
+        may_raise={"AssertionError": {}},
+        note="ASSUMED: infer_valid_graph keeps variables, their order and update functions; parametrised networks are rejected (AssertionError)"))
+    reg.add(Contract(
+        "biobalm.petri_net_translation.network_to_petrinet", params=[("network", TNetObj), ("symbolic_context", TOpt(TObj("SymbolicContext")))],
+        defaults={"symbolic_context": None},
+        result_type=M.TPN, trusted=True, properties=("C10", "C20"),
+        ensures=[("encodes_network", lambda c: T.Encodes(c.result, bn_net_of(c.network), EMPTY)),
+                 ("is_translation", lambda c: c.result == T.PNOfNet(c.network))],
+        note="ASSUMED (bounded validation, C10): the Petri net encodes the asynchronous dynamics of the network"))
+
+    # ---- default_config: the literal values (the model constant DefaultCfg is checked against the source on every run)
+    def dc_post(c):
+        r = c._result_val
+        if not isinstance(r, E._PyRecord) or set(r.items) != set(M.CONFIG_KEYS) | {"debug"}:
+            return z3.BoolVal(False)
+        return z3.And(z3.Not(r.items["debug"].t), *[r.items[k].t == M.DEFAULTS[k] for k in M.CONFIG_KEYS])
+    reg.add(Contract("biobalm.succession_diagram.SuccessionDiagram.default_config", params=[], properties=("C16", "C14"),
+                     ensures=[("is_the_documented_default_record", dc_post)]))
+
+    # ---- __getstate__
+    def gs_post(c):
+        r, v = c._result_val, c.self
+        if not isinstance(r, E._PyRecord) or set(r.items) != {"network_rules", "petri_net", "nfvs", "dag", "node_indices", "config"}:
+            return [("is_state_record", z3.BoolVal(False))] * 1
+        it = r.items
+        live = lambda x, kind: isinstance(x, M._V) and x.kind == kind and x.sd.t == c.val("self").t
+        return [("is_state_record", z3.BoolVal(True)),
+                ("rules_are_the_network_text", it["network_rules"].t == to_aeon_fn(v.net) if it["network_rules"].ty == TAeonText else z3.BoolVal(False)),
+                ("petri_net", it["petri_net"].t == v.pn if it["petri_net"].ty == M.TPN else z3.BoolVal(False)),
+                ("nfvs", it["nfvs"].t == v.nfvs if it["nfvs"].ty == OptLN else z3.BoolVal(False)),
+                ("dag_is_the_diagrams_graph", z3.BoolVal(live(it["dag"], "dag"))),
+                ("index", it["node_indices"].t == v.index if it["node_indices"].ty == M.TDict(TInt, TInt) else z3.BoolVal(False)),
+                ("config_is_the_diagrams_config", z3.BoolVal(live(it["config"], "config"))),
+                ("nothing_modified", z3.And(identical(v, c.old.self), v.nfvs == c.old.self.nfvs, *[getattr(v, f) == getattr(c.old.self, f) for f in CFG]))]
+    GS = ["is_state_record", "rules_are_the_network_text", "petri_net", "nfvs", "dag_is_the_diagrams_graph", "index",
+          "config_is_the_diagrams_config", "nothing_modified"]
+    reg.add(Contract(
+        "biobalm.succession_diagram.SuccessionDiagram.__getstate__", params=[("self", SD)], properties=("C16",),
+        ensures=[(nm, (lambda k: (lambda c: dict(gs_post(c)).get(k, z3.BoolVal(False))))(nm)) for nm in GS]), method_of="SD")
+
+    # ---- __setstate__
+    def mk_state(eng, st, name):
+        cfg = M.TConfig.fresh(name + ".config")
+        nf = OptLN.fresh(name + ".nfvs")
+        st.assume(OptLN.wf(nf.t))
+        ix = M.TDict(TInt, TInt).fresh(name + ".node_indices")
+        return E._PyRecord({"network_rules": TAeonText.fresh(name + ".network_rules"), "petri_net": M.TPN.fresh(name + ".petri_net"),
+                            "nfvs": nf, "dag": M.fresh_dag_value(name + ".dag"), "node_indices": ix, "config": cfg})
+
+    def ss_post(c):
+        v, it = c.self, c.val("state").items
+        dg = it["dag"].a[0]
+        net = cleanup_fn(from_aeon_fn(it["network_rules"].t))
+        return [("network_is_rebuilt_from_the_rules", v.net == net),
+                ("symbolic_graph_is_of_that_network", v.sym == graph_of(net)),
+                ("petri_net", v.pn == it["petri_net"].t), ("nfvs", v.nfvs == it["nfvs"].t), ("index", v.index == it["node_indices"].t),
+                ("dag", z3.And(*[getattr(v, f) == dg[f].t for f in M.DAG_FIELDS])),
+                ("config", z3.And(*[getattr(v, "cfg_" + k) == M.cfg_get[k](it["config"].t) for k in M.CONFIG_KEYS]))]
+    SS = ["network_is_rebuilt_from_the_rules", "symbolic_graph_is_of_that_network", "petri_net", "nfvs", "index", "dag", "config"]
+    reg.add(Contract(
+        "biobalm.succession_diagram.SuccessionDiagram.__setstate__", params=[("self", SD), ("state", CustomParam(mk_state))],
+        properties=("C16",),
+        requires=[lambda c: z3.Not(M.cfg_debug(c.val("state").items["config"].t))],
+        modifies={"self": True},
+        ensures=[(nm, (lambda k: (lambda c: dict(ss_post(c))[k]))(nm)) for nm in SS],
+        may_raise={"AssertionError": {}}, raises={"AssertionError": []},
+        note="self is an uninitialised object on entry (all fields arbitrary)"), method_of="SD")
+
+    # ---- __init__
+    def init_post(c):
+        v = c.self
+        cfg = z3.If(OptCfg.is_none(c.config), M.DefaultCfg, OptCfg.val(c.config))
+        nonec, nonev = M.OptLS.none().t, M.OptLV.none().t
+        return [("network_is_cleaned_argument", v.net == cleanup_fn(c.network)),
+                ("symbolic_graph_is_of_that_network", v.sym == graph_of(v.net)),
+                ("petri_net_is_translation", v.pn == T.PNOfNet(c.network)),
+                ("nfvs_not_computed", OptLN.is_none(v.nfvs)),
+                ("config", z3.And(*[getattr(v, "cfg_" + k) == M.cfg_get[k](cfg) for k in M.CONFIG_KEYS])),
+                ("single_unexpanded_root", z3.And(
+                    v.K == 1, z3.Not(v.expanded[0]), z3.Not(v.skipped[0]), v.depth[0] == 0, OptInt.is_none(v.parent[0]),
+                    v.cand[0] == nonec, v.seeds[0] == nonec, v.sets[0] == nonev,
+                    M.OptPN.is_none(v.ppn[0]), M.OptBN.is_none(v.pbn[0]), M.OptLN.is_none(v.pnfvs[0]),
+                    z3.ForAll([x, y], z3.Not(v.edge[x][y]))))] + [("inv." + nm, g) for nm, g in S.inv(v)]
+    IP = ["network_is_cleaned_argument", "symbolic_graph_is_of_that_network", "petri_net_is_translation", "nfvs_not_computed", "config",
+          "single_unexpanded_root"] + ["inv." + nm for nm, _ in S.inv(M.View(_dummy_ho()))]
+    reg.add(Contract(
+        "biobalm.succession_diagram.SuccessionDiagram.__init__",
+        params=[("self", SD), ("network", TNetObj), ("config", OptCfg)], defaults={"config": None},
+        properties=("C20", "C16", "C02"),
+        requires=[lambda c: z3.Implies(z3.Not(OptCfg.is_none(c.config)), z3.Not(M.cfg_debug(OptCfg.val(c.config))))],
+        modifies={"self": True},
+        ensures=[(nm, (lambda k: (lambda c: dict(init_post(c))[k]))(nm)) for nm in IP],
+        may_raise={"AssertionError": {}}, raises={"AssertionError": []},
+        lemmas=[("L2.perc_trap(empty space)", lambda c: z3.And(*[z3.And(T.IsTrap(n_, EMPTY), T.wf_space(EMPTY), T.dom_within(EMPTY, n_))
+                                                                  for n_ in (bn_net_of(c.network), bn_net_of(cleanup_fn(c.network)))]))],
+        axioms=AX_AEON,
+        note="self is an uninitialised object on entry (all fields arbitrary); the diagram invariant is ESTABLISHED here"), method_of="SD")
+
+    # ---- schema lemma: unpickling the pickled state gives back the same abstract diagram (C16)
+    def roundtrip(fresh):
+        """For every diagram view v whose network is a cleaned network and whose symbolic graph is the graph of that network
+        (both established by __init__ / __setstate__ and framed by every operation), the state record produced by the
+        postcondition of __getstate__ fed to the postcondition of __setstate__ yields a view that is identical field by field."""
+        v, w = fresh("vp"), fresh("vq")
+        rules = z3.Const("rt.rules", TAeonText.sort())
+        cfg = z3.Const("rt.cfg", M.TConfig.sort())
+        get = z3.And(rules == to_aeon_fn(v.net), *[M.cfg_get[k](cfg) == getattr(v, "cfg_" + k) for k in M.CONFIG_KEYS])
+        net = cleanup_fn(from_aeon_fn(rules))
+        sett = z3.And(w.net == net, w.sym == graph_of(net), w.pn == v.pn, w.nfvs == v.nfvs, w.index == v.index,
+                      *([getattr(w, f) == getattr(v, f) for f in M.DAG_FIELDS] +
+                        [getattr(w, "cfg_" + k) == M.cfg_get[k](cfg) for k in M.CONFIG_KEYS]))
+        hyp = z3.And(cleanup_fn(v.net) == v.net, v.sym == graph_of(v.net))
+        same = z3.And(identical(w, v), w.nfvs == v.nfvs, *[getattr(w, f) == getattr(v, f) for f in CFG])
+        return z3.Implies(z3.And(hyp, get, sett), z3.And(same, cleanup_fn(w.net) == w.net, w.sym == graph_of(w.net))), AX_AEON
+    S.EXTRA_SCHEMAS["S.pickle_roundtrip_is_identity"] = roundtrip
